@@ -1,6 +1,7 @@
 (* Primitives of the translated x/wrkchain keeper code that mention the module's protobuf records (see
    model/RegistryWorld.v for the rest and for what is trusted). *)
 From MC Require Import lib.Prelude lib.AMap lib.GoSdk GeneratedWrkchainTypes model.Bank model.Registry.
+From MC Require Import model.Genesis.
 From MC Require Export model.RegistryWorld.
 
 Definition wrkchain_ErrContentTooLarge : Z := ERR_REG.
@@ -41,3 +42,17 @@ Definition params_of_go (p : go_Params) : reg_params :=
   {| rp_fee_register := Params_FeeRegister p; rp_fee_record := Params_FeeRecord p; rp_fee_purchase := Params_FeePurchaseStorage p;
      rp_denom := Params_Denom p; rp_default_limit := Params_DefaultStorageLimit p; rp_max_limit := Params_MaxStorageLimit p |}.
 Definition reg_SetParams (w : rworld) (p : go_Params) : outcome (rworld * unit) := reg_store_params w (params_of_go p).
+
+(* ---- genesis (x/wrkchain/genesis.go) ---- *)
+Definition wrkchain_PANIC : Z := 21.      (* panic(err) in InitGenesis *)
+Definition params_to_go (p : reg_params) : go_Params :=
+  {| Params_FeeRegister := rp_fee_register p; Params_FeeRecord := rp_fee_record p; Params_FeePurchaseStorage := rp_fee_purchase p;
+     Params_Denom := rp_denom p; Params_DefaultStorageLimit := rp_default_limit p; Params_MaxStorageLimit := rp_max_limit p |}.
+Definition reg_GetParams (w : rworld) : go_Params := params_to_go (r_params (rw_reg w)).
+(* GetAllWrkChains: the registrations in store order (ascending id) *)
+Definition reg_GetAllEntities (w : rworld) : list go_WrkChain := map (fun kv => to_go_entity (snd kv)) (r_regs (rw_reg w)).
+Definition hash_n (n : nat) (rc : record) : string := nth n (rc_hashes rc) EmptyString.
+(* the records of one registration as exported: ascending key, at most the newest EXPORT_CAP of them *)
+Definition reg_GetRecordsForExport (w : rworld) (id : Z) :=
+  map (fun kr => mk_go_WrkChainBlockGenesisExport (fst kr) (hash_n 0 (snd kr)) (hash_n 1 (snd kr)) (hash_n 2 (snd kr)) (hash_n 3 (snd kr)) (hash_n 4 (snd kr)) (rc_time (snd kr)))
+      (newest EXPORT_CAP (sort_by_key (records_of id (r_recs (rw_reg w))))).
